@@ -5,12 +5,13 @@ import json, os, glob
 root = os.path.dirname(os.path.dirname(os.path.abspath(__file__)))
 props = [json.loads(l) for l in open(os.path.join(root, "properties.jsonl"))]
 checks, na = [], []
+enabled = set(open(os.path.join(root, "checks", "ENABLED")).read().split()) if os.path.exists(os.path.join(root, "checks", "ENABLED")) else set()
 engines = {}
 for p in props:
     pid = p["id"]
     d = os.path.join(root, "checks", pid.lower())
     mp = os.path.join(d, "meta.json")
-    if os.path.exists(mp) and os.access(os.path.join(d, "run.sh"), os.X_OK):
+    if pid in enabled and os.path.exists(mp) and os.access(os.path.join(d, "run.sh"), os.X_OK):
         m = json.load(open(mp))
         c = {
             "property_id": pid,
